@@ -109,6 +109,33 @@ def canon(o, forget=True):
     return _cfg.safe_wire(_sorted(_cfg.forget_kinds(o) if forget else o))
 
 
+def same_wire(a, b):
+    """two wire strings (optionally prefixed 'v:') denote the same typed tree AS MAPPINGS (dict key order immaterial)"""
+    if not isinstance(a, str) or not isinstance(b, str):
+        return a == b
+    if a == b:
+        return True
+    if a.startswith('v:') != b.startswith('v:'):
+        return False
+    if a.startswith('v:'):
+        a, b = a[2:], b[2:]
+    if a.startswith('?') or b.startswith('?') or a.startswith('e:') or b.startswith('e:'):
+        return a == b
+    try:
+        return canon_wire(a, forget=False) == canon_wire(b, forget=False)
+    except Exception:  # noqa  (not a wire string)
+        return False
+
+
+def same_outcome(a, b):
+    """results of one key-path operation agree: both refuse (ANY error class - the property fixes none; unknown classes
+    arrive as Other:<name>), both succeed, or both return the same value"""
+    a, b = str(a), str(b)
+    if a.startswith('e:') and b.startswith('e:'):
+        return True
+    return same_wire(a, b)
+
+
 def canon_wire(w, forget=True):
     """canon() of a wire string ('?unencodable…' markers are returned as they are)"""
     return w if (not isinstance(w, str) or w.startswith('?')) else canon(_cfg.unwire(w), forget)
@@ -285,9 +312,9 @@ class Edits(Stream):
         if not r.ok:
             return 'model answered %s' % r.raw[:200]
         for i, v in enumerate(out['results']):
-            if r.args.get('r%d' % i) != v:
+            if not same_outcome(r.args.get('r%d' % i), v):
                 return 'op %d %s: impl %s, model %s' % (i, case['ops'][i], v, r.args.get('r%d' % i))
-        if r.args.get('store') != out['store']:
+        if not same_wire(r.args.get('store'), out['store']):
             return 'final store: impl %s, model %s' % (out['store'], r.args.get('store'))
         return None
 
@@ -365,7 +392,7 @@ class KeyTransform(Stream):
     def compare(self, case, out, results):
         r = results[0]
         if isinstance(out, ImplError):
-            return None if r.status == 'err' and r.words == [out['error']] else 'impl raised %s, model %s' % (out['error'], r.raw)
+            return None if r.status == 'err' else 'impl raised %s, model %s' % (out['error'], r.raw)     # both refuse: any class
         if not r.ok or r.args.get('parts') != _cfg.wire(out['parts']):
             return 'impl %s model %s' % (out['parts'], r.raw)
         return None
@@ -375,7 +402,7 @@ class KeyTransform(Stream):
         # one level, list otherwise, ValueError for more than three): the whole stream is mechanism-level (literal=False)
         exp = case['key'].split('/')
         if len(exp) > 3:
-            if not (isinstance(out, ImplError) and out['error'] == 'ValueError'):
+            if not isinstance(out, ImplError):       # any exception is a rejection
                 return [Failure('too-deep-key-not-rejected', repr(case['key']), literal=False)]
             return []
         if isinstance(out, ImplError):
@@ -541,15 +568,15 @@ class YamlRoutes(Stream):
             return 'implementation raised %s: %s' % (out['error'], out['msg'])
         r = results[0]
         if 'error' in out:
-            if r.status == 'err' and r.words[:1] == [out['error']] and r.args.get('live') == out['after']:
-                return None
+            if r.status == 'err' and same_wire(r.args.get('live'), out['after']):
+                return None         # both refuse (the error class is not compared)
             return 'impl raised %s (%s), model %s' % (out['error'], out['msg'], r.raw[:200])
         if not r.ok:
             return 'model answered %s' % r.raw[:200]
         for mk, ik in (('stype', 'back_stype'), ('store', 'back_store'), ('live', 'after')):
-            if r.args.get(mk) != out[ik]:
+            if not same_wire(r.args.get(mk), out[ik]):
                 return '%s: impl %s, model %s' % (ik, out[ik], r.args.get(mk))
-        if r.args.get('docs') != 'v:' + out['docs']:
+        if not out['docs'].startswith('?') and not same_wire(r.args.get('docs'), 'v:' + out['docs']):
             return 'documents written: PyYAML reads %s, model %s' % (out['docs'], r.args.get('docs'))
         return None
 
@@ -775,16 +802,19 @@ class YamlForeign(Stream):
             return None if 'error' in out else 'loader accepted text PyYAML rejects'
         r = results[0]
         if 'error' in out:
-            return None if (r.status == 'err' and r.words == [out['error']]) else 'impl raised %s, model %s' % (out['error'], r.raw)
-        if not r.ok or r.args.get('stype') != out['stype'] or r.args.get('store') != out['store']:
+            # hand-written / malformed YAML is outside the quantifier: "both refuse" is agreement, whatever the classes
+            return None if r.status == 'err' else 'impl raised %s, model %s' % (out['error'], r.raw)
+        if not r.ok or r.args.get('stype') != out['stype'] or not same_wire(r.args.get('store'), out['store']):
             return 'impl (%s, %s) model %s' % (out['stype'], out['store'], r.raw)
-        if len(results) > 1:
+        if len(results) > 1 and out['store'].startswith('D'):
+            # (a document that is no mapping - '[]', a scalar - is no configuration: what get_func makes of it is not compared)
             g, f = results[1], out['func']
             if 'error' in f:
                 # a non-callable attribute (e.g. a module) is outside the model: only require that the model did not claim more
-                if g.status == 'err' and g.words != [f['error']] and out['known'] == 0:
-                    return 'get_func: impl raised %s, model %s' % (f['error'], g.raw)
-            elif not g.ok or g.args.get('fn') != _cfg.wire(f['fn']) or g.args.get('kw') != f['kw']:
+                pass        # get_func refuses: nothing the model could claim more precisely (error classes are not compared)
+            elif f.get('fn') == '?':
+                pass        # a callable that is no functools.partial: not inspected
+            elif not g.ok or g.args.get('fn') != _cfg.wire(f['fn']) or not same_wire(g.args.get('kw'), f['kw']):
                 return 'get_func: impl %s model %s' % (f, g.raw)
         return None
 
@@ -838,8 +868,8 @@ class Defaults(Stream):
     def compare(self, case, out, results):
         r = results[0]
         if isinstance(out, ImplError):
-            return None if (r.status == 'err' and r.words == [out['error']]) else 'impl raised %s, model %s' % (out['error'], r.raw)
-        if not r.ok or r.args.get('stype') != out['stype'] or r.args.get('store') != out['store']:
+            return None if r.status == 'err' else 'impl raised %s, model %s' % (out['error'], r.raw)      # both refuse
+        if not r.ok or r.args.get('stype') != out['stype'] or not same_wire(r.args.get('store'), out['store']):
             return 'impl %s model %s' % (out, r.raw)
         return None
 
@@ -1027,7 +1057,7 @@ class Behaviour(Stream):
         g = results[0]
         if out['fn'] == '?':
             return 'skip:get_func-returns-a-callable-that-is-no-functools.partial'
-        if not g.ok or g.args.get('fn') != _cfg.wire(out['fn']) or g.args.get('kw') != out['kw']:
+        if not g.ok or g.args.get('fn') != _cfg.wire(out['fn']) or not same_wire(g.args.get('kw'), out['kw']):
             return 'get_func: impl (%s, %s) model %s' % (out['fn'], out['kw'], g.raw)
         return None
 
@@ -1149,3 +1179,18 @@ class Aliasing(Stream):
 
 
 STREAMS = [Edits(), KeyTransform(), YamlRoutes(), YamlCodec(), YamlForeign(), Defaults(), Behaviour(), Aliasing()]
+
+
+def _guard(fn):
+    """An exception inside an instance check is a harness fault (an oracle tripping over an unexpected but legal
+    output container), not the property's words failing: reported as mechanism-level, never as a violation."""
+    def holds(self, case, out):
+        try:
+            return fn(self, case, out)
+        except Exception as e:  # noqa
+            return [Failure('instance-check-crashed', repr(e), literal=False)]
+    return holds
+
+
+for _cls in {_b for _s in STREAMS for _b in type(_s).__mro__ if _b.__module__ == __name__ and 'holds' in _b.__dict__}:
+    _cls.holds = _guard(_cls.holds)
